@@ -57,7 +57,11 @@ func loopEntry[T any](x T) T                     { return x }
 func exactCmpIF(i int64, f float64) int          { return 0 }
 func errIsCtx(err error) bool                    { return false }
 func sameSlice[T any](a, b []T) bool             { return len(a) == len(b) }
+func sameVal[T any](a, b T) bool                  { return true }
 func uninterp[T any](name string, args ...any) T { var z T; return z }
+func outCount() int                              { return 0 }
+func outFirst() any                              { return nil }
+func outLast() any                               { return nil }
 
 //@ sweep safety C18
 
@@ -93,56 +97,67 @@ func uninterp[T any](name string, args ...any) T { var z T; return z }
 //@ props C17 C18 C05
 //@ pure
 //@ ensures nonnil: r0 != nil
+//@ ensures [C17 C18] same-wall-clock: r0 == NewTimestamp(d.Time)
 
 //@ func (*Date).ToTimestampTZ
 //@ props C17 C18 C05
 //@ pure
 //@ ensures nonnil: r0 != nil
+//@ atcall Date assert [C17 C18] midnight-in-context-zone: arg_loc == TZFromContext(ctx) && arg_year == d.Time.Year() && arg_month == d.Time.Month() && arg_day == d.Time.Day() && arg_hour == 0 && arg_min == 0 && arg_sec == 0 && arg_nsec == 0
 
 //@ func (*Time).ToTimeTZ
 //@ props C17 C18 C05
 //@ pure
 //@ ensures nonnil: r0 != nil
+//@ atcall Date assert [C17 C18] wall-clock-in-context-zone: arg_loc == TZFromContext(ctx) && arg_hour == t.Time.Hour() && arg_min == t.Time.Minute() && arg_sec == t.Time.Second() && arg_nsec == t.Time.Nanosecond()
 
 //@ func (*Timestamp).ToDate
 //@ props C17 C18 C05
 //@ pure
 //@ ensures nonnil: r0 != nil
+//@ ensures [C17 C18] same-wall-clock: r0 == NewDate(ts.Time)
 
 //@ func (*Timestamp).ToTime
 //@ props C17 C18 C05
 //@ pure
 //@ ensures nonnil: r0 != nil
+//@ ensures [C17 C18] same-wall-clock: r0 == NewTime(ts.Time)
 
 //@ func (*Timestamp).ToTimestampTZ
 //@ props C17 C18 C05
 //@ pure
 //@ ensures nonnil: r0 != nil
+//@ atcall Date assert [C17 C18] wall-clock-in-context-zone: arg_loc == TZFromContext(ctx) && arg_year == ts.Time.Year() && arg_month == ts.Time.Month() && arg_day == ts.Time.Day() && arg_hour == ts.Time.Hour() && arg_min == ts.Time.Minute() && arg_sec == ts.Time.Second() && arg_nsec == ts.Time.Nanosecond()
 
 //@ func (*TimestampTZ).ToDate
 //@ props C17 C18 C05
 //@ pure
 //@ ensures nonnil: r0 != nil
+//@ ensures [C17 C18] context-zone: r0 == NewDate(ts.Time.In(TZFromContext(ctx)))
 
 //@ func (*TimestampTZ).ToTime
 //@ props C17 C18 C05
 //@ pure
 //@ ensures nonnil: r0 != nil
+//@ ensures [C17 C18] context-zone: r0 == NewTime(ts.Time.In(TZFromContext(ctx)))
 
 //@ func (*TimestampTZ).ToTimestamp
 //@ props C17 C18 C05
 //@ pure
 //@ ensures nonnil: r0 != nil
+//@ ensures [C17 C18] context-zone: r0 == NewTimestamp(ts.Time.In(TZFromContext(ctx)))
 
 //@ func (*TimestampTZ).ToTimeTZ
 //@ props C17 C18 C05
 //@ pure
 //@ ensures nonnil: r0 != nil
+//@ ensures [C17 C18] context-zone: r0 == NewTimeTZ(ts.Time.In(TZFromContext(ctx)))
 
 //@ func (*TimeTZ).ToTime
 //@ props C17 C18 C05
 //@ pure
 //@ ensures nonnil: r0 != nil
+//@ ensures [C17 C18] same-wall-clock: r0 == NewTime(t.Time)
 
 //@ func TZFromContext
 //@ props C17 C18
